@@ -310,7 +310,21 @@ def crafted() -> list[dict]:
                       F("Revoked", "[]Zc12TopicPartitions", versions="1+")],
            "commonStructs": [{"name": "Zc12TopicPartitions", "versions": "0+",
                               "fields": [F("TopicId", "uuid"), F("Partitions", "[]int32")]}]}
-    out = [d1, d2, d3, d7, d8, d9, *d10, d11, d12]
+    # a tagged structure all of whose members have defaults — one of them an inline nullable structure
+    # with default null — in an ignorable and in a non-ignorable variant; bool defaults in every spelling
+    d13 = {"type": "data", "name": "Zc13ProbeRecord", "validVersions": "0-1", "flexibleVersions": "0+",
+           "fields": [F("Anchor", "int16"),
+                      F("Probe", "Zc13ProbeState", taggedVersions="0+", tag=0, ignorable=True, fields=[
+                          F("Epoch", "int32", default="-1"),
+                          F("Cursor", "Zc13Cursor", nullableVersions="0+", default="null",
+                            fields=[F("TopicName", "string"), F("PartitionIndex", "int32")])]),
+                      F("Strict", "Zc13StrictState", taggedVersions="0+", tag=1, fields=[
+                          F("Level", "int8", default="3"),
+                          F("Next", "Zc13Next", nullableVersions="0+", default="null", fields=[F("Id", "int64")])]),
+                      F("OnLiteral", "bool", default=True), F("OnText", "bool", default="true"),
+                      F("OffLiteral", "bool", default=False), F("OnUpper", "bool", default="TRUE"),
+                      F("TaggedOn", "bool", taggedVersions="0+", tag=2, default=True)]}
+    out = [d1, d2, d3, d7, d8, d9, *d10, d11, d12, d13]
     for key, stem in ((7, "Zc3Shutdown"), (18, "Zc4Versions")):
         for kind in ("request", "response"):
             out.append({"type": kind, "name": stem + kind.capitalize(), "apiKey": key, "validVersions": "0-4",
